@@ -34,6 +34,47 @@ def run_gqr(B, opt, L, A, N, s, reuse=False):
     return [int(i) for i in piv], steps
 
 
+def run_gqr_partial(B, opt, L, A, N, s, s2):
+    """one GQR object: a fit with the full settings, then a refit that passes ONLY the new allowance (the other settings stay in
+    force, as GQR keeps them on the object); returns the second fit's (pivots, steps)"""
+    from pysensors.optimizers import GQR
+    g = GQR()
+    impl.quiet(g.fit, B.copy(), idx_constrained=np.array(L, dtype=int), n_sensors=N, n_const_sensors=s, all_sensors=np.array(A, dtype=int),
+               constraint_option=opt)
+    steps = []
+    with gqr_trace.trace_gqr(steps):
+        piv = impl.quiet(g.fit, B.copy(), n_const_sensors=s2).get_sensors()
+    return [int(i) for i in piv], steps
+
+
+def listing(rng, L, A):
+    """the same region listed in another way: sorted, in rank order, descending, shuffled, or with repeats"""
+    form = ["sorted", "rank-order", "descending", "shuffled", "repeats"][int(rng.integers(0, 5))]
+    if form == "sorted" or not L:
+        return list(L), "sorted"
+    if form == "rank-order":
+        return [a for a in A if a in L], form
+    if form == "descending":
+        return sorted(L, reverse=True), form
+    if form == "shuffled":
+        return [int(v) for v in rng.permutation(L)], form
+    return [int(v) for v in rng.permutation(list(L) + [L[int(rng.integers(0, len(L)))] for _ in range(int(rng.integers(1, 3)))])], form
+
+
+def run_gqr_own(B, opt, L, N, s):
+    """one GQR object ranks B without constraints, and the very array it hands back is then given to the same object as all_sensors
+    (the usual way to obtain all_sensors when no second optimizer is at hand); returns (pivots, steps, all_sensors as a list, intact?)"""
+    from pysensors.optimizers import GQR
+    g = GQR()
+    r = impl.quiet(g.fit, B.copy()).get_sensors()
+    A = [int(i) for i in r]
+    steps = []
+    with gqr_trace.trace_gqr(steps):
+        piv = impl.quiet(g.fit, B.copy(), idx_constrained=np.array(L, dtype=int), n_sensors=N, n_const_sensors=s, all_sensors=r,
+                         constraint_option=opt).get_sensors()
+    return [int(i) for i in piv], steps, A, [int(i) for i in r] == A
+
+
 def table_from_steps(steps, n):
     """norm of every sensor at every step as exact scaled integers (0 for sensors already ranked).  The table stops before the
     first step whose norms are not finite (beyond the first n_sensors steps every candidate may be masked; the loop then
@@ -90,10 +131,12 @@ def degenerate_steps(B, piv, N, rel=1e-9):
     return zero, tiny, res
 
 
-def gen_region_case(rng, nmax=9, mmax=5, feasible_only=True, graded=0.0, tiny=0.0):
+def gen_region_case(rng, nmax=9, mmax=5, feasible_only=True, graded=0.0, tiny=0.0, ties=0.0):
     n = int(rng.integers(3, nmax + 1))
     m = int(rng.integers(2, min(n, mmax) + 1))
     B = rng.integers(-40, 41, size=(n, m)) / 8.0
+    if rng.random() < ties:
+        B = rng.integers(-3, 4, size=(n, m)).astype(float)        # small integers: exact ties between residual norms do occur
     k = min(n, m)
     N = int(rng.integers(1, k + 1))
     Lsize = int(rng.integers(0, n + 1))
